@@ -69,7 +69,7 @@ func Props(c *Ctx) map[string]*Prop {
 	add(&Prop{ID: "C19",
 		Explanation: "Decides panic freedom of every exported downstream entry point (Fprint, Pos/End, Expand, Eval, Get/Set/Unset/Walk, Option.String, Match, Glob) for every path of the current source, with the AST shape facts they rely on checked on the producer side.",
 		Assumptions: []string{"ExecEnv values are built by NewExecEnv (len(Args) >= 1, non-nil maps)", "Config.Width >= 0", "regexp (RE2) terminates", "analysed build configuration: linux/amd64"},
-		Rules: []Rule{
+		Rules: []Rule{ruleLP1(),
 			pf1Rule("no index, slice, type-assertion or division site reachable from a downstream entry point can panic", 50,
 				func(c *Ctx) (map[*core.Func]bool, map[*core.Func]bool) { return c.downstreamScope(), nil }),
 			rulePF2(), rulePF3("printer", "interp", "ast", "pattern"), rulePF4("interp"), rulePF5(), ruleYY1("interp"), ruleEF7(), ruleFLD1(), ruleFLD2(), ruleCC1("interp"),
@@ -92,7 +92,7 @@ func Props(c *Ctx) map[string]*Prop {
 	add(&Prop{ID: "C11",
 		Explanation: "Decides the table side of C arithmetic: operator spellings the tokeniser recognises = the ops table (TB9a); each operator case computes `l S r` on signed 64-bit operands in that order, unary and truth tests as C defines them, constants parsed with base 0 (TB9b); the grammar's levels are C's precedence ladder with C's associativity (GR5) and the compiled tables are the grammar's (GR1, GR2); run-time faults are recovered into ArithExprError (PF5); whether side effects are executed inside reductions that C would skip (AR); and that the evaluation's outcome after a fault does not depend on the schedule: the parser stops consuming tokens (CC13) and the reported error has a deterministic winner (CC11). Numeric results are not computed.",
 		Assumptions: []string{"analysed build configuration linux/amd64 (int is 64-bit); the thorough tier re-checks the width under linux/386", "C's operator table (ISO C 6.5) is the external oracle"},
-		Rules:       []Rule{ruleGR1("interp"), ruleGR2("interp"), ruleGR5(), ruleTB9a("interp", "interp.(*lexer).lexOp", 15), ruleTB9b(), rulePF5(), ruleEF7(), ruleAR(), ruleAR3(), ruleCC13("interp"), ruleCC11("interp"), ruleCC9("interp"), ruleAR5(), ruleNG1("interp"), rulePU4()}})
+		Rules:       []Rule{ruleLP1(), ruleGR1("interp"), ruleGR2("interp"), ruleGR5(), ruleTB9a("interp", "interp.(*lexer).lexOp", 15), ruleTB9b(), rulePF5(), ruleEF7(), ruleAR(), ruleAR3(), ruleCC13("interp"), ruleCC11("interp"), ruleCC9("interp"), ruleAR5(), ruleNG1("interp"), rulePU4()}})
 	add(&Prop{ID: "C06",
 		Explanation: "Decides race freedom and goroutine lifetime structurally for every path: goroutine roots always close their channels (CC1); every access to goroutine-touched lexer fields after a spawn is preceded by a join on all paths (CC2); every field shared between the lexer-role and parser-role functions with a write is accessed only under the mutex, atomically or as a channel operation (CC3); sends can always be abandoned, the cancel channel is closed at most once, atomics are used consistently (CC4/CC5); the here-document hand-off cannot deadlock (CC6, GR4, with the token channel a rendezvous, CC9); cancellation is observed only at the token hand-over, never polled (CC10); the error slot has a deterministic winner (CC11), a lexer that failed by itself offers no further token (CC12) and a parser that fails inside a reduction stops consuming (CC13); the bail-out does not kill the process (PF4). Which of two concurrently raised errors is returned is a schedule-dependent value and is not decided.",
 		Assumptions: []string{"the Go memory model: lock, atomic, channel and go/join edges order accesses", "roles are computed on an over-approximating call graph (reference based + CHA for interface calls)"},
@@ -104,7 +104,7 @@ func Props(c *Ctx) map[string]*Prop {
 		Rules:       []Rule{ruleEF1(), ruleEF2(), ruleRC2("parser"), ruleCC2("parser"), ruleCC7(), ruleCC8("parser"), ruleEF8(), ruleSRC2()}})
 	add(&Prop{ID: "C03",
 		Explanation: "Decides only that every syntax error value is located: built with the caller's name and a recorded, non-zero position expression, that Lex records the position of every token it delivers, and that the lexer's error function discards a reported syntax error only when another error is already recorded (ER1). Rejection of ill-formed programs itself (language recognition) is not decidable structurally.",
-		Rules:       []Rule{ruleEF6(), ruleER1(), ruleHD7(), ruleLX("HD5"), ruleTK("TK1", "TK2"), ruleEF1()}})
+		Rules:       []Rule{ruleBQ1(), ruleGR7(), ruleEF6(), ruleER1(), ruleHD7(), ruleLX("HD5"), ruleTK("TK1", "TK2"), ruleEF1()}})
 	add(&Prop{ID: "C18",
 		Explanation: "Decides purity, determinism and error reporting of the printer structurally: its only AST writes are the hide/undo idiom and every hide is undone by a deferred closure on all paths (PU1); nothing reachable from Fprint is a source of nondeterminism (PU2); all output goes through one buffered writer whose sticky error is returned through print, Config.Fprint and Fprint (EF5); here-document frames are balanced (PU8); the positions it consults are counted in characters (BR1, TB5) and nothing reachable from Fprint can panic (PF1). That the output is a fix-point of print∘parse is a value-level property and is not decided.",
 		Assumptions: []string{"bufio.Writer's sticky-error contract"},
@@ -118,7 +118,7 @@ func Props(c *Ctx) map[string]*Prop {
 		Rules:       []Rule{rulePU3(), rulePU4(), rulePU6(), rulePU9(), ruleTB8(), ruleGR1("interp"), ruleNG1("interp"), rulePP1(), rulePU10()}})
 	add(&Prop{ID: "C05",
 		Explanation: "Decides only side conditions of the print/parse round trip: every semantic AST field and every Config field is read by the printer (TB6); pending here-document frames are balanced on every path under every combination of the style bits that guard them (PU8); the operator sets of scanner and expander/printer agree (TB10); nil-encoded fields are tested against nil (TB13); the positions the printer consults to space arithmetic tokens are counted in characters and End() adds the width of the stored token (BR1, TB5), and adjacency of two tokens is decided from line and column together (PS1); nothing reachable from Fprint can panic (PF1). Whether printed text re-parses to the same tree is not decidable structurally and is not claimed.",
-		Rules: []Rule{ruleTB6(), rulePU8(), rulePU8b(), ruleLV1(), ruleTB10(), ruleTB13(), rulePF3("printer"), ruleBR1(), ruleTB5(), rulePS1("printer", "parser"), ruleGR1("parser"), ruleGR3(),
+		Rules: []Rule{rulePS2(), ruleTB6(), rulePU8(), rulePU8b(), ruleLV1(), ruleTB10(), ruleTB13(), rulePF3("printer"), ruleBR1(), ruleTB5(), rulePS1("printer", "parser"), ruleGR1("parser"), ruleGR3(),
 			pf1Rule("no index, slice or type-assertion site reachable from Fprint can panic", 20,
 				func(c *Ctx) (map[*core.Func]bool, map[*core.Func]bool) {
 					return c.scopeOf("printer.Fprint", "printer.(*Config).Fprint"), nil
@@ -133,17 +133,17 @@ func Props(c *Ctx) map[string]*Prop {
 				}), rulePU10(), ruleQU3(), ruleSM1()}})
 	add(&Prop{ID: "C02",
 		Explanation: "Decides only side conditions of 'every grammatical program is accepted': the compiled tables and actions are goyacc's output for the checked-in grammar (GR1), which is conflict-free (GR2); every nonterminal carries the dynamic types its consumers assert and the lists they index are non-empty (GR3); lexer tables and grammar agree on the terminal alphabet and every operator is scanned under its own spelling (GR6, TB9a); a reserved word is translated at every dispatch a raw word can reach (RC5); every closer pushed on the nesting stack is matched somewhere (RC6). That the context-driven lexer hands the right token class in every state, and that the grammar is POSIX's, are language-level claims and are not decided.",
-		Rules:       []Rule{ruleGR1("parser"), ruleGR2("parser"), ruleGR3(), ruleGR6(), ruleTB9a("parser", "parser.(*lexer).scanOp", 8), ruleRC5(), ruleRC6(), ruleRC7(), ruleTK("TK1", "TK2"), ruleHD()}})
+		Rules:       []Rule{ruleBQ1(), ruleCM3(), ruleGR7(), ruleGR1("parser"), ruleGR2("parser"), ruleGR3(), ruleGR6(), ruleTB9a("parser", "parser.(*lexer).scanOp", 8), ruleRC5(), ruleRC6(), ruleRC7(), ruleTK("TK1", "TK2"), ruleHD()}})
 	add(&Prop{ID: "C04",
 		Explanation: "Decides that columns are counted in characters at every site that manufactures a position (taint from byte lengths/offsets to NewPos, shift and the cursor, BR1) and that End() adds the width of the token actually stored in the field (TB5). That each fixed offset equals the number of characters read since the documented character, containment and ordering of positions are value-level and not decided.",
 		Assumptions: []string{"operator and reserved-word spellings are ASCII (checked against the tables)", "Comment.End is excluded by the property's text"},
-		Rules:       []Rule{ruleBR1(), ruleTB5(), ruleGR1("parser"), ruleLX("PO1"), ruleRD1(), ruleSRC2(), ruleCM3(), ruleMK1(), ruleLBK()}})
+		Rules:       []Rule{rulePS2(), ruleBR1(), ruleTB5(), ruleGR1("parser"), ruleLX("PO1"), ruleRD1(), ruleSRC2(), ruleCM3(), ruleMK1(), ruleLBK()}})
 	add(&Prop{ID: "C07",
 		Explanation: "Decides a necessary condition of 'one call, one command': the newline that ends a command is never consumed silently — the newline-swallowing scanner is called only at grammar linebreak positions and never from the raw token scanner (RC4); and the reader is only touched by read/unread so look-ahead is undone through one place (EF1). Where exactly a command ends is language-level and not decided.",
-		Rules:       []Rule{ruleRC4(), ruleRC7(), ruleEF1(), ruleCC2("parser"), ruleHD(), ruleLX("HD1b"), ruleTK("SRC1"), ruleSRC2(), ruleNG1("parser")}})
+		Rules:       []Rule{rulePS2(), ruleRC4(), ruleRC7(), ruleEF1(), ruleCC2("parser"), ruleHD(), ruleLX("HD1b"), ruleTK("SRC1"), ruleSRC2(), ruleNG1("parser")}})
 	add(&Prop{ID: "C08",
 		Explanation: "Decides the structure of here-document handling: announce/push/pop protocol and FIFO order (CC6), no look-ahead needed to push (GR4 with GR1), operator-dependent delimiter search, literal body iff the delimiter of that very here-document was quoted, delimiter only at column 1 (HD), every state that emits a redirection operator counts an announced here-document (HD6), no panic in the body reader (PF1). Byte-exact bodies and delimiter matching after quote removal are value-level and not decided.",
-		Rules: []Rule{ruleCC6(), ruleGR1("parser"), ruleGR4(), ruleHD(), ruleHD6(), ruleHD7(), ruleLBK(), ruleSRC2(), ruleLX("HD1b", "HD5"),
+		Rules: []Rule{rulePS2(), ruleCC6(), ruleGR1("parser"), ruleGR4(), ruleHD(), ruleHD6(), ruleHD7(), ruleLBK(), ruleSRC2(), ruleLX("HD1b", "HD5"),
 			pf1Rule("no index/slice/assertion in the here-document reader can panic", 3,
 				func(c *Ctx) (map[*core.Func]bool, map[*core.Func]bool) {
 					s := map[*core.Func]bool{}
@@ -169,7 +169,7 @@ func Props(c *Ctx) map[string]*Prop {
 		Rules:       []Rule{ruleRC4(), ruleRC6(), ruleLB1(), ruleLBK(), ruleLX("CM2"), ruleCM3(), ruleTK("TK2")}})
 	add(&Prop{ID: "C14",
 		Explanation: "Decides side conditions of field splitting: quoted segments bypass the cutter, are joined as quoted and keep a field alive (SP1), unset IFS means space-tab-newline (SP2), cut offsets advance by the rune's encoded width (BR3), the two parallel slices of a field stay in step (FLD2), no panic in split (PF1). The cutter's state machine itself is value-level and not decided.",
-		Rules: []Rule{ruleSP(), ruleFLD2(), rulePU4(), ruleNG1("interp"),
+		Rules: []Rule{ruleFE1(), ruleSP(), ruleFLD2(), rulePU4(), ruleNG1("interp"),
 			pf1Rule("no index/slice in split can panic", 3,
 				func(c *Ctx) (map[*core.Func]bool, map[*core.Func]bool) {
 					return c.scopeOf("interp.(*ExecEnv).split"), nil
